@@ -34,6 +34,13 @@ class _Top:
     def __repr__(self):
         return "TOP"
 
+    def __reduce__(self):
+        return (_get_top, ())
+
+
+def _get_top():
+    return TOP
+
 
 TOP = _Top()
 
@@ -441,6 +448,7 @@ class Interp:
 
     def _test_names_and_stable(self):
         tests = set()
+        self.test_attrs = set()
         stores: Dict[str, int] = {}
         attr_stores = set()
         for n in walk_no_nested(self.fi.node):
@@ -451,6 +459,8 @@ class Interp:
                 for sub in ast.walk(t):
                     if isinstance(sub, ast.Name):
                         tests.add(sub.id)
+                    elif isinstance(sub, ast.Attribute):
+                        self.test_attrs.add(sub.attr)
             if isinstance(n, ast.Name) and isinstance(n.ctx, (ast.Store, ast.Del)):
                 stores[n.id] = stores.get(n.id, 0) + 1
             if isinstance(n, ast.Attribute) and isinstance(n.ctx, (ast.Store, ast.Del)):
@@ -1030,6 +1040,10 @@ class Interp:
             if vt is not None and not _mentions(vt, name) and name in self.test_names:
                 if not isinstance(val, Const):
                     p.pa.add(name, vt, frozenset("="))
+            if _is_num(val) and name in self.test_names:
+                ct = _const_term(val.v)
+                if ct:
+                    p.pa.add(name, ct, frozenset("="))
         elif isinstance(target, (ast.Tuple, ast.List)):
             n = len(target.elts)
             for i, t in enumerate(target.elts):
@@ -1048,6 +1062,10 @@ class Interp:
                     p.heap[(base.oid, target.attr)] = val
                 key = f"@{base.oid}.{target.attr}"
                 p.pa.kill(lambda t, key=key: _mentions_attr(t, key))
+                if _is_num(val) and target.attr in self.test_attrs:
+                    ct = _const_term(val.v)
+                    if ct:
+                        p.pa.add(key, ct, frozenset("="))
             else:
                 bt = self.term(target.value, p)
                 if bt:
